@@ -18,10 +18,12 @@
      map id) says which element a code stands for; the helpers read the cells
      (`params[j]`) and never write them, which is part of the frame theorem.
      A map[K]map[K]V is a map object whose values are codes of the inner maps.
+     The `any` argument of Flatten / Union is an [anyv]; a nested []any is again
+     a slice of codes in the memory (decoded by [atbl]), so the cells of every
+     sub-list on the way are covered by the frame theorem too.
      RESULTS of type [][]T / [2][]T / []map[K]V are Gallina lists of
      descriptors: their header arrays are allocated by the call and nothing
-     else can reach them.  The `any` argument of Flatten/Union is the Gallina
-     tree [nest].  The nil slice and the literal `[]T{}` are [empty_slice] (no
+     else can reach them.  The nil slice and the literal `[]T{}` are [empty_slice] (no
      array is allocated for them, as in Go).
    * Callbacks are Gallina functions: they are pure (the assumption "callbacks
      do not write to the arguments" of the property's setting).
@@ -46,12 +48,13 @@ Definition rdz (s : slice) (i : Z) : M Z := if (i <? 0)%Z then fail else rd s (Z
 (* outer[j] of a slice of slices / of maps: the cell holds a code, [tbl] decodes it *)
 Definition rd_elem {A} (tbl : Z -> A) (outer : slice) (j : nat) : M A := c <- rd outer j ;; ret (tbl c).
 
-(* the nested `any` argument of Flatten / Union *)
-Inductive nest :=
-| NItem (v : Z)
-| NSlice (s : slice)
-| NList (l : list nest)
-| NBad.                      (* a value of another type: "flattening error" *)
+(* a value of type `any` as Flatten / Union look at it.  A []any is a slice in the
+   memory whose cells hold CODES of its elements; [atbl] (code -> anyv) decodes them *)
+Inductive anyv :=
+| AItem (v : Z)              (* a T *)
+| ASlice (s : slice)         (* a []T *)
+| AList (l : slice)          (* a []any: a slice of codes *)
+| ABad.                      (* a value of another type (or nil): "flattening error" *)
 
 Section Helpers.
   Variable slack : nat -> nat -> nat.
@@ -281,29 +284,62 @@ Section Helpers.
     app s ms.
 
   (* baseFlatten(acc, slice): T -> append(acc, v); []T -> append(acc, v...);
-     []any -> for sv { acc, err = baseFlatten(acc, sv); if err != nil { return nil, err } }; default -> nil, err.
-     None = (nil, error) *)
-  Fixpoint base_flatten (acc : slice) (x : nest) : M (option slice) :=
+     []any -> for _, sv := range v { acc, err = baseFlatten(acc, sv); if err != nil { return nil, err } }; default -> nil, err.
+     None = (nil, error).  The recursion follows the nesting of the argument: [fuel] bounds its depth (a []any
+     that contains itself overflows the Go stack) and every theorem holds for every fuel. *)
+  Fixpoint base_flatten (fuel : nat) (atbl : Z -> anyv) (acc : slice) (x : anyv) : M (option slice) :=
     match x with
-    | NItem v => r <- app acc [v] ;; ret (Some r)
-    | NSlice s => vs <- values s ;; r <- app acc vs ;; ret (Some r)
-    | NList l =>
-        (fix go (l : list nest) (acc : slice) : M (option slice) :=
-           match l with
-           | [] => ret (Some acc)
-           | sv :: l' =>
-               r <- base_flatten acc sv ;;
-               match r with None => ret None | Some acc' => go l' acc' end
-           end) l acc
-    | NBad => ret None
+    | AItem v => r <- app acc [v] ;; ret (Some r)
+    | ASlice s => vs <- values s ;; r <- app acc vs ;; ret (Some r)
+    | AList l =>
+        match fuel with
+        | O => fail
+        | S f =>
+            for_each (seq 0 (s_len l))
+              (fun i (st : option slice) =>
+                 match st with
+                 | None => ret None                                  (* `return nil, err`: nothing more is read *)
+                 | Some acc => c <- rd l i ;; base_flatten f atbl acc (atbl c)
+                 end) (Some acc)
+        end
+    | ABad => ret None
     end.
   Definition or_nil (r : option slice) : slice := match r with Some s => s | None => empty_slice end.
   (* Flatten: baseFlatten([]T{}, slice) *)
-  Definition flatten_go (x : nest) : M slice := r <- base_flatten empty_slice x ;; ret (or_nil r).
+  Definition flatten_go (fuel : nat) (atbl : Z -> anyv) (x : anyv) : M slice :=
+    r <- base_flatten fuel atbl empty_slice x ;; ret (or_nil r).
   (* Union: flatten, err := baseFlatten([]T{}, slice); if err != nil { return nil, err }; return Unique(flatten), nil *)
-  Definition union_go (x : nest) : M slice :=
-    r <- base_flatten empty_slice x ;;
+  Definition union_go (fuel : nat) (atbl : Z -> anyv) (x : anyv) : M slice :=
+    r <- base_flatten fuel atbl empty_slice x ;;
     match r with None => ret empty_slice | Some fl => unique_go fl end.
+
+  (* a mutant kept for the self-test of the theorems (the seeded change C16-6): baseFlatten detaches the element
+     it visits (`v[i] = nil`, the code [nilc]) and puts it back afterwards (`v[i] = sv`) — but the early return
+     on an error skips the put-back: a FAILING call leaves nil in the caller's []any *)
+  Fixpoint base_flatten_detaching (nilc : Z) (fuel : nat) (atbl : Z -> anyv) (acc : slice) (x : anyv) : M (option slice) :=
+    match x with
+    | AItem v => r <- app acc [v] ;; ret (Some r)
+    | ASlice s => vs <- values s ;; r <- app acc vs ;; ret (Some r)
+    | AList l =>
+        match fuel with
+        | O => fail
+        | S f =>
+            for_each (seq 0 (s_len l))
+              (fun i (st : option slice) =>
+                 match st with
+                 | None => ret None
+                 | Some acc =>
+                     c <- rd l i ;;
+                     wr l i nilc ;;;
+                     r <- base_flatten_detaching nilc f atbl acc (atbl c) ;;
+                     match r with
+                     | None => ret None
+                     | Some acc' => wr l i c ;;; ret (Some acc')
+                     end
+                 end) (Some acc)
+        end
+    | ABad => ret None
+    end.
 
   (* Intersection(params...): panics without parameters (params[0]);
        result := []T{}; for i < len(params[0]) { item := params[0][i]; if Contains(result, item) { continue }
@@ -485,20 +521,24 @@ Section Helpers.
 
   (* ================= range.go ================= *)
 
-  (* for i := start; i < end; i += step { result = append(result, i) }     (N(NumToString(i)) = i on int) *)
+  (* for i := start; i < end; i += step { result = append(result, i); if i+step < i { break } }
+     (N(NumToString(i)) = i on int; the break, added by the repair 07bbafa, guards against wrap-around of the
+      element type — on Z it fires only for a negative step) *)
   Fixpoint range_up (fuel : nat) (i step e : Z) (acc : slice) : M slice :=
     if (i <? e)%Z then
       match fuel with
       | O => fail
-      | S f => acc' <- app acc [i] ;; range_up f (i + step)%Z step e acc'
+      | S f => acc' <- app acc [i] ;;
+               if (i + step <? i)%Z then ret acc' else range_up f (i + step)%Z step e acc'
       end
     else ret acc.
-  (* for i := start; end < i; i -= Abs(step) { result = append(result, i) } *)
+  (* for i := start; end < i; i -= Abs(step) { result = append(result, i); if i-Abs(step) > i { break } } *)
   Fixpoint range_down (fuel : nat) (i astep e : Z) (acc : slice) : M slice :=
     if (e <? i)%Z then
       match fuel with
       | O => fail
-      | S f => acc' <- app acc [i] ;; range_down f (i - astep)%Z astep e acc'
+      | S f => acc' <- app acc [i] ;;
+               if (i - astep >? i)%Z then ret acc' else range_down f (i - astep)%Z astep e acc'
       end
     else ret acc.
 
@@ -856,8 +896,8 @@ Inductive hcall :=
 | HPartition (fn : Z -> bool) (s : slice)
 | HDuplicate (s : slice)
 | HDuplicateWithIndex (s : slice)
-| HFlatten (x : nest)
-| HUnion (x : nest)
+| HFlatten (fuel : nat) (atbl : Z -> anyv) (x : anyv)
+| HUnion (fuel : nat) (atbl : Z -> anyv) (x : anyv)
 | HIntersection (tbl : Z -> slice) (params : slice)
 | HIntersectionBy (fn : Z -> Z) (tbl : Z -> slice) (params : slice)
 | HWithout (s vals : slice)
@@ -939,8 +979,8 @@ Definition run_call (slack : nat -> nat -> nat) (c : hcall) : M (list rref) :=
   | HPartition fn s => r <- partition_go slack fn s ;; ret (map rs r)
   | HDuplicate s => one rs (duplicate_go slack s)
   | HDuplicateWithIndex s => one RM (duplicate_with_index_go s)
-  | HFlatten x => one rs (flatten_go slack x)
-  | HUnion x => one rs (union_go slack x)
+  | HFlatten fuel atbl x => one rs (flatten_go slack fuel atbl x)
+  | HUnion fuel atbl x => one rs (union_go slack fuel atbl x)
   | HIntersection tbl params => one rs (intersection_go slack tbl params)
   | HIntersectionBy fn tbl params => one rs (intersection_by_go slack fn tbl params)
   | HWithout s vals => one rs (without_go slack s vals)
